@@ -62,6 +62,13 @@ type Mem struct {
 	ProtoMajor int // 1 or 2 (default 2)
 	ReqWindow  int // bytes buffered client→server (0: unbounded)
 	RespWindow int // bytes buffered server→client (0: unbounded)
+	// LingerRequest: after the handler has finished, keep consuming (and
+	// discarding) the request body until the client ends it, instead of closing
+	// it. An HTTP client is free to do so: the response is complete, what
+	// becomes of request bytes sent afterwards is nobody's business. (net/http's
+	// HTTP/2 transport closes the body, but only some time after the response's
+	// end became visible to the caller.)
+	LingerRequest bool
 
 	mu          sync.Mutex
 	exchanges   []*Exchange
@@ -187,6 +194,14 @@ func (m *Mem) Do(req *http.Request) (*http.Response, error) {
 				ex.reqBody.Write(buf[:n])
 				ex.mu.Unlock()
 				if _, werr := st.reqPipe.Write(buf[:n]); werr != nil {
+					if m.LingerRequest {
+						st.mu.Lock()
+						hd := st.handlerDone
+						st.mu.Unlock()
+						if hd {
+							continue // response complete: swallow what the client still sends
+						}
+					}
 					return
 				}
 			}
@@ -366,7 +381,7 @@ func (st *memStream) finish() {
 	// like a server that finished its response: stop reading the request
 	st.reqPipe.Break(errStreamClosed)
 	st.scancel()
-	if st.req.Body != nil {
+	if st.req.Body != nil && !st.m.LingerRequest {
 		_ = st.req.Body.Close()
 	}
 }
